@@ -27,6 +27,7 @@ with real commits behind the vfs seam, for repository/bundle format pairs
 import itertools
 import json
 import os
+import re
 import select
 import shutil
 import signal
@@ -62,6 +63,23 @@ def testaments(repo, revid):
 
 def ancestors(dag, i):
     return gen.dag_ancestors(dag, i)
+
+
+def kinds(spec):
+    return {e.fid: e.kind for e in spec.values()}
+
+
+def kind_change_in_bundle(dag, assign, base, bundled):
+    """True when some bundled revision changes the kind of a file id with respect to one of its parents or the
+    bundle base (the patch-based formats 0.8/0.9 have no action for that)."""
+    for i in bundled:
+        ki = kinds(_hist.STATES[assign[i]])
+        others = list(dag[i]) + ([base] if base is not None else [])
+        for p in others:
+            kp = kinds(_hist.STATES[assign[p]])
+            if any(f in kp and kp[f] != k for f, k in ki.items()):
+                return True
+    return False
 
 
 def base_target_pairs(dag):
@@ -113,7 +131,8 @@ def check_bundles(dag, assign, pairs, acc):
                     info = read_bundle(BytesIO(out.getvalue()))
                     ret = info.install_revisions(tgt.repository)
                 except Exception as e:  # noqa
-                    acc.violation(sig_exc("install", e) + sfx, dict(d, error=str(e)[:300]))
+                    kc = ":kind-change-in-bundle" if kind_change_in_bundle(dag, assign, b, expect) else ""
+                    acc.violation(sig_exc("install", e) + sfx + kc, dict(d, error=str(e)[:300]))
                     continue
                 if info.target != ids[t] or ret != ids[t]:
                     acc.violation("install:wrong-target" + sfx, dict(d, got=info.target, returned=ret))
@@ -193,8 +212,11 @@ def check_merges(dag, assign, acc, base_dir):
                         tb.merge_from_branch(src, to_revision=ids[other])
                     ref = wt_state(tb)
                 except Exception as e:  # noqa
+                    # no tree to compare with (e.g. UnrelatedBranches): the clause does not apply
                     acc.count("reference_merge_raises:" + type(e).__name__)
-                    ref = ("raises", type(e).__name__)
+                    shutil.rmtree(os.path.join(root, "a%d" % k), ignore_errors=True)
+                    shutil.rmtree(os.path.join(root, "b%d" % k), ignore_errors=True)
+                    continue
                 # mergeable
                 try:
                     if kind == "directive":
@@ -204,8 +226,8 @@ def check_merges(dag, assign, acc, base_dir):
                             include_bundle=True)
                         mergeable = merge_directive.MergeDirective.from_lines(md.to_lines())
                     else:
-                        graph = src.repository.get_graph()
-                        lca = graph.find_unique_lca(ids[other], ids[this])
+                        with src.repository.lock_read():
+                            lca = src.repository.get_graph().find_unique_lca(ids[other], ids[this])
                         out = BytesIO()
                         write_bundle(src.repository, ids[other], lca, out, format=kind.split("-")[1])
                         mergeable = read_bundle(BytesIO(out.getvalue()))
@@ -321,10 +343,11 @@ def check_directive_fields(acc, thorough):
         acc.n += 1
         acc.nt(("md1", ptype, msg, tz, tm))
         try:
-            md = merge_directive.MergeDirective.from_objects(
-                repository=src.repository, revision_id=ids[3], time=tm, timezone=tz, target_branch=tgt.base,
-                patch_type=ptype, local_target_branch=tgt, public_branch=src.base if ptype != "bundle" else None,
-                message=msg)
+            with src.lock_write():      # the version-1 from_objects expects its caller (bzr send) to hold the lock
+                md = merge_directive.MergeDirective.from_objects(
+                    repository=src.repository, revision_id=ids[3], time=tm, timezone=tz, target_branch=tgt.base,
+                    patch_type=ptype, local_target_branch=tgt, public_branch=src.base if ptype != "bundle" else None,
+                    message=msg)
             lines = md.to_lines()
             md2 = merge_directive.MergeDirective.from_lines(lines)
         except Exception as e:  # noqa
@@ -381,6 +404,13 @@ def run_isolated(fn, timeout):
     finally:
         os.close(r)
         os.waitpid(pid, 0)
+
+
+def norm_patch(p):
+    """The tolerance MergeDirective2._verify_patch documents: line endings and trailing blanks."""
+    if p is None:
+        return None
+    return re.sub(b" *\n", b"\n", re.sub(b"\r\n?", b"\n", p))
 
 
 def mutations(text):
@@ -448,7 +478,11 @@ def _work_t(chunk):
                 acc.count("mutation_is_identity")
                 continue
             acc.nt((key, op, line))
-            def attempt(mutated=mutated):
+            orig_patch = None
+            if kind == "directive":
+                orig_patch = merge_directive.MergeDirective.from_lines(text.splitlines(True)).patch
+
+            def attempt(mutated=mutated, orig_patch=orig_patch):
                 repo = Branch.open(store.url + "base").repository
                 try:
                     if kind == "bundle":
@@ -457,8 +491,11 @@ def _work_t(chunk):
                     else:
                         md = merge_directive.MergeDirective.from_lines(mutated.splitlines(True))
                         md.install_revisions(repo)
-                        if md.get_merge_request(repo)[2] == "failed":
+                        status = md.get_merge_request(repo)[2]
+                        if status == "failed":
                             return ["patch-check-failed", None, None]
+                        if status == "verified" and norm_patch(md.patch) != norm_patch(orig_patch):
+                            return ["undetected", "altered-preview-patch-verified", ""]
                 except Exception as e:  # noqa
                     return ["raises:" + type(e).__name__, None, None]
                 # nothing complained: whatever is now in the repository must be what the source has
@@ -512,25 +549,33 @@ def tamper_items(thorough):
 
 def run(ctx):
     pairs = PAIRS_THOROUGH if ctx.thorough else PAIRS_QUICK
+    parts = os.environ.get("VERIF_C40_PARTS", "BMDT")
     if ctx.thorough:
         hs = _hist.histories(4, 7, nstates_for={4: 4})
-        bound = "connected DAGs <= 3 revisions x 7 tree states, 4 revisions x 4 tree states"
-    else:
-        hs = _hist.histories(3, 6)
-        bound = "connected DAGs <= 3 revisions x 6 tree states"
-    accb = par.merge(par.pmap(_work_b, [(d, a, pairs) for d, a in hs], seed=ctx.seed))
-    if ctx.thorough:
+        bound = "connected DAGs <= 3 revisions x 7 tree states, 4 revisions x 4 tree states (0-3)"
         hm = _hist.histories(3, 6)
-        mbound = "connected DAGs <= 3 revisions x 6 tree states"
+        mbound = "connected DAGs (2-3 revisions) x 6 tree states (0-5)"
     else:
-        hm = _hist.histories(3, 4)
-        mbound = "connected DAGs <= 3 revisions x 4 tree states"
+        hs = _hist.histories(3, 5, state_ids=(1, 2, 3, 4, 5))
+        bound = "connected DAGs <= 3 revisions x 5 tree states (1-5)"
+        hm = _hist.histories(3, 3, state_ids=(1, 3, 4))
+        mbound = "connected DAGs (2-3 revisions) x 3 tree states (1, 3, 4)"
     hm = [h for h in hm if len(h[0]) >= 2]
-    accm = par.merge(par.pmap(_work_m, hm, seed=ctx.seed))
-    accd = par.Acc()
-    check_directive_fields(accd, ctx.thorough)
-    items, arts, sizes = tamper_items(ctx.thorough)
-    acct = par.merge(par.pmap(_work_t, items, seed=ctx.seed))
+    stride = int(os.environ.get("VERIF_DEV_STRIDE", "1") or 1)     # development aid only: every k-th history
+    hs, hm = hs[::stride], hm[::stride]
+    accb, accm, accd, acct = par.Acc(), par.Acc(), par.Acc(), par.Acc()
+    arts, sizes = [], []
+    if "B" in parts:
+        accb = par.merge(par.pmap(_work_b, [(d, a, pairs) for d, a in hs], seed=ctx.seed))
+    if "M" in parts:
+        accm = par.merge(par.pmap(_work_m, hm, seed=ctx.seed))
+    if "D" in parts:
+        check_directive_fields(accd, ctx.thorough)
+    if "T" in parts:
+        items, arts, sizes = tamper_items(ctx.thorough)
+        acct = par.merge(par.pmap(_work_t, items, seed=ctx.seed))
+    if parts != "BMDT":
+        ctx.assumptions.append("PARTIAL RUN: only parts %s" % parts)
 
     def size(d):
         return (len(d.get("dag", [])), sum(len(p) for p in d.get("dag", [])), sum(d.get("states", [])),
@@ -564,5 +609,6 @@ def run(ctx):
         "outcomes": sorted(str(o) for o in (accb.outcomes | accm.outcomes | accd.outcomes | acct.outcomes)),
         "tamper_artefacts": [list(a) + [n] for a, n in zip(arts, sizes)],
         "samples": accb.samples[:2],
-        "exhaustive": True,
+        "exhaustive": stride == 1 and parts == "BMDT",
+        **({"capped": "VERIF_DEV_STRIDE=%d / parts %s" % (stride, parts)} if stride > 1 or parts != "BMDT" else {}),
     }
